@@ -478,6 +478,33 @@ func (in *Interp) lookupIntrinsic(fn *ssa.Function) intrinsic {
 			return zeroReturn
 		}
 	}
+	if len(in.stubRet) > 0 {
+		n := fn.String()
+		v, ok := in.stubRet[n]
+		if !ok {
+			v, ok = in.stubRet[strings.ReplaceAll(n, "github.com/elastos/Elastos.ELA/", "")]
+		}
+		if ok {
+			return func(in *Interp, fn *ssa.Function, a []Value) Value {
+				z := in.zeroResults(fn)
+				if fn.Signature.Results().Len() == 1 {
+					return v
+				}
+				if tp, isT := z.(Tuple); isT && len(tp) > 0 {
+					e := append(Tuple{}, tp...)
+					e[0] = v
+					return e
+				}
+				if ag, isAgg := z.(*Agg); isAgg && len(ag.E) > 0 {
+					e := append([]Value{}, ag.E...)
+					e[0] = v
+					return &Agg{E: e}
+				}
+				in.unsupported("StubReturn: unexpected result shape")
+				return nil
+			}
+		}
+	}
 	if i, ok := in.funcCache[fn]; ok {
 		return i
 	}
